@@ -194,7 +194,7 @@ var (
 )
 
 func genDigits(t *rapid.T, label string) string {
-	if rapid.IntRange(0, 9).Draw(t, label+"Huge") == 9 {
+	if unif(t, label+"Huge", 10) == 9 {
 		return genHugeDigits.Draw(t, label)
 	}
 	return genSmallDigits.Draw(t, label)
@@ -202,7 +202,7 @@ func genDigits(t *rapid.T, label string) string {
 
 func genCanonicalRate(t *rapid.T) string {
 	n := genDigits(t, "n")
-	if rapid.IntRange(0, 3).Draw(t, "bare") == 0 {
+	if unif(t, "bare", 4) == 0 {
 		return n
 	}
 	count := ""
@@ -212,45 +212,45 @@ func genCanonicalRate(t *rapid.T) string {
 			rapid.StringMatching(`[1-9][0-9]{0,3}`),
 		).Draw(t, "count")
 	}
-	return n + "/" + count + rapid.SampledFrom(unitNames).Draw(t, "unit")
+	return n + "/" + count + pick(t, "unit", unitNames)
 }
 
 func oneEdit(t *rapid.T, s string) string {
 	r := []rune(s)
-	op := rapid.IntRange(0, 2).Draw(t, "editOp")
+	op := unif(t, "editOp", 3)
 	if len(r) == 0 {
 		op = 0
 	}
 	switch op {
 	case 0: // insert
-		pos := rapid.IntRange(0, len(r)).Draw(t, "editPos")
-		c := rapid.SampledFrom(editAlphabet).Draw(t, "editChar")
+		pos := unif(t, "editPos", len(r)+1)
+		c := pick(t, "editChar", editAlphabet)
 		out := append([]rune{}, r[:pos]...)
 		out = append(out, c)
 		return string(append(out, r[pos:]...))
 	case 1: // delete
-		pos := rapid.IntRange(0, len(r)-1).Draw(t, "editPos")
+		pos := unif(t, "editPos", len(r))
 		return string(append(append([]rune{}, r[:pos]...), r[pos+1:]...))
 	default: // replace
-		pos := rapid.IntRange(0, len(r)-1).Draw(t, "editPos")
+		pos := unif(t, "editPos", len(r))
 		out := append([]rune{}, r...)
-		out[pos] = rapid.SampledFrom(editAlphabet).Draw(t, "editChar")
+		out[pos] = pick(t, "editChar", editAlphabet)
 		return string(out)
 	}
 }
 
 // genRateString draws from the rate grammar and its near-misses.
 func genRateString(t *rapid.T) (s, shape string) {
-	switch k := rapid.IntRange(0, 99).Draw(t, "rateShape"); {
+	switch k := unif(t, "rateShape", 100); {
 	case k < 50:
 		return genCanonicalRate(t), "grammar"
 	case k < 62:
 		return oneEdit(t, genCanonicalRate(t)), "one-edit"
 	default:
 		n := genDigits(t, "n")
-		u := rapid.SampledFrom(unitNames).Draw(t, "unit")
-		c := rapid.SampledFrom([]string{"1", "2", "10", "100", "500"}).Draw(t, "count")
-		frac := rapid.SampledFrom([]string{"5", "25", "0", "001", "999"}).Draw(t, "frac")
+		u := pick(t, "unit", unitNames)
+		c := pick(t, "count", []string{"1", "2", "10", "100", "500"})
+		frac := pick(t, "frac", []string{"5", "25", "0", "001", "999"})
 		templates := []string{
 			n + "/",                      // empty unit
 			"/" + c + u,                  // empty rate
@@ -275,30 +275,30 @@ func genRateString(t *rapid.T) (s, shape string) {
 			n + "/1h30m",                 // compound duration
 			n + "/0h0m0s",                // compound zero duration
 			n + "/1m0." + frac + "s",     // compound with fraction
-			n + "/" + rapid.SampledFrom(unicodeDigits).Draw(t, "udigit") + u, // unicode digit count
-			rapid.SampledFrom(unicodeDigits).Draw(t, "udigit2") + "/" + u,    // unicode digit rate
-			n + "/" + strings.ToUpper(u),          // upper-case unit
-			n + "/" + c + "d",                     // unknown unit
-			n + "/" + c + "sec",                   // unknown unit
-			n + "/μs",                             // Greek mu (ParseDuration knows it, the canonical list does not)
-			n + "e3/" + u,                         // exponent
-			n + ".5/" + u,                         // fractional rate
-			n + "_000/" + u,                       // underscore
-			"0x" + n + "/" + u,                    // hex
-			"",                                    // empty
-			"/",                                   // only the slash
-			u,                                     // only a unit
-			n + "/" + "9999999999999999999" + u,   // duration overflow
-			n + "/" + "9223372036854775807ns",     // largest duration
-			n + "/" + "9223372036854775808ns",     // one above the largest duration
-			n + "/" + "2562047h48m",               // overflow through a compound duration
-			n + "\\" + c + u,                      // backslash
-			n + "/" + c + u + "\n",                // trailing newline
-			n + "/" + c + u + "\x00",              // NUL
-			strings.Repeat("9", 400) + "/" + u,    // very long digit string
+			n + "/" + pick(t, "udigit", unicodeDigits) + u, // unicode digit count
+			pick(t, "udigit2", unicodeDigits) + "/" + u,    // unicode digit rate
+			n + "/" + strings.ToUpper(u),                   // upper-case unit
+			n + "/" + c + "d",                              // unknown unit
+			n + "/" + c + "sec",                            // unknown unit
+			n + "/μs",                                      // Greek mu (ParseDuration knows it, the canonical list does not)
+			n + "e3/" + u,                                  // exponent
+			n + ".5/" + u,                                  // fractional rate
+			n + "_000/" + u,                                // underscore
+			"0x" + n + "/" + u,                             // hex
+			"",                                             // empty
+			"/",                                            // only the slash
+			u,                                              // only a unit
+			n + "/" + "9999999999999999999" + u,            // duration overflow
+			n + "/" + "9223372036854775807ns",              // largest duration
+			n + "/" + "9223372036854775808ns",              // one above the largest duration
+			n + "/" + "2562047h48m",                        // overflow through a compound duration
+			n + "\\" + c + u,                               // backslash
+			n + "/" + c + u + "\n",                         // trailing newline
+			n + "/" + c + u + "\x00",                       // NUL
+			strings.Repeat("9", 400) + "/" + u,             // very long digit string
 			n + "/" + strings.Repeat("0", 300) + "1" + u, // very long count
 		}
-		i := rapid.IntRange(0, len(templates)-1).Draw(t, "template")
+		i := unif(t, "template", len(templates))
 		return templates[i], "near-miss-template"
 	}
 }
@@ -485,43 +485,43 @@ var (
 )
 
 func genStagesString(t *rapid.T) (s, shape string) {
-	sloppy := rapid.IntRange(0, 9).Draw(t, "sloppy") // 0-5 tidy, 6-8 one odd part, 9 anything
+	sloppy := unif(t, "sloppy", 10) // 0-5 tidy, 6-8 one odd part, 9 anything
 	n := rapid.IntRange(1, 5).Draw(t, "nStages")
 	oddAt := -1
 	if sloppy >= 6 {
-		oddAt = rapid.IntRange(0, n-1).Draw(t, "oddAt")
+		oddAt = unif(t, "oddAt", n)
 	}
 	shape = "grammar"
 	var parts []string
 	for i := 0; i < n; i++ {
-		d := rapid.SampledFrom(goodStageDur).Draw(t, "dur")
-		g := rapid.SampledFrom(goodTarget).Draw(t, "target")
+		d := pick(t, "dur", goodStageDur)
+		g := pick(t, "target", goodTarget)
 		sep := ":"
 		if i == oddAt || sloppy == 9 {
 			shape = "near-miss"
-			switch rapid.IntRange(0, 5).Draw(t, "oddKind") {
+			switch unif(t, "oddKind", 6) {
 			case 0:
-				d = rapid.SampledFrom(oddStageDur).Draw(t, "oddDur")
+				d = pick(t, "oddDur", oddStageDur)
 			case 1, 2:
-				g = rapid.SampledFrom(oddTarget).Draw(t, "oddTarget")
+				g = pick(t, "oddTarget", oddTarget)
 			case 3:
-				sep = rapid.SampledFrom([]string{"", "::", ";", "=", ":1:", " : "}).Draw(t, "oddSep")
+				sep = pick(t, "oddSep", []string{"", "::", ";", "=", ":1:", " : "})
 			case 4:
-				g = g + rapid.SampledFrom([]string{":", ":1", " ", "\n", "\x00"}).Draw(t, "tail")
+				g = g + pick(t, "tail", []string{":", ":1", " ", "\n", "\x00"})
 			default:
 				d, g = g, d // swapped
 			}
 		}
-		pad := rapid.SampledFrom([]string{"", "", "", " ", "  ", "\t"}).Draw(t, "pad")
+		pad := pick(t, "pad", []string{"", "", "", " ", "  ", "\t"})
 		parts = append(parts, pad+d+sep+g)
 	}
 	joiner := ","
 	if sloppy == 9 {
-		joiner = rapid.SampledFrom([]string{",", ", ", ",,", ";", " ", "\n"}).Draw(t, "joiner")
+		joiner = pick(t, "joiner", []string{",", ", ", ",,", ";", " ", "\n"})
 	}
 	s = strings.Join(parts, joiner)
 	if sloppy >= 8 {
-		switch rapid.IntRange(0, 4).Draw(t, "wrap") {
+		switch unif(t, "wrap", 5) {
 		case 0:
 			s += ","
 		case 1:
@@ -530,7 +530,7 @@ func genStagesString(t *rapid.T) (s, shape string) {
 			s = oneEdit(t, s)
 			shape = "one-edit"
 		case 3:
-			if rapid.IntRange(0, 5).Draw(t, "empty") == 0 {
+			if unif(t, "empty", 6) == 0 {
 				s = ""
 			}
 		}
@@ -566,7 +566,7 @@ func recordStages(section, s, dist, shape string, accepted bool, n int, violatio
 func TestProp_StagesStrings(t *testing.T) {
 	rapid.Check(t, func(rt *rapid.T) {
 		s, shape := genStagesString(rt)
-		dist := rapid.SampledFrom([]string{"none", "regular", "random"}).Draw(rt, "distribution")
+		dist := pick(rt, "distribution", []string{"none", "regular", "random"})
 		seedGlobalRand(rapid.Int64().Draw(rt, "randSeed"))
 		accepted, n, violation := judgeStages(s, dist)
 		recordStages("stages", s, dist, shape, accepted, n, violation)
